@@ -54,7 +54,12 @@ def replay_failure(prop, res, ov, run_one):
     hfile = os.path.join(base, "src", "h.rs") if base.endswith("diff") else os.path.join(base, "h", h.file)
     # `print` mode (in-place insertion lands inside macro definitions for macro-generated
     # harnesses and is then expanded more than once)
-    r2 = run_one(h, ov, os.path.join(ov, "t_replay"), extra=["-Z", "concrete-playback", "--concrete-playback=print"])
+    # the trace-producing run needs more memory and time than the verifying run
+    import copy
+    h2 = copy.copy(h)
+    h2.mem = max(h.mem * 3, 24)
+    h2.timeout = h.timeout * 2
+    r2 = run_one(h2, ov, os.path.join(ov, "t_replay"), extra=["-Z", "concrete-playback", "--concrete-playback=print"])
     logtext = open(r2.log_path, errors="replace").read() if r2.log_path else ""
     tm = re.search(r"Concrete playback unit test for `[^`]*`:\s*```\n(.*?)```", logtext, re.S)
     m = re.search(r"fn (kani_concrete_playback_\w+)\s*\(", tm.group(1)) if tm else None
